@@ -118,3 +118,48 @@ package vectorstore
 //@   requires bqp != nil
 //@   modifies bqp.isDirty
 //@   ensures result == old(bqp.isDirty) && !bqp.isDirty
+
+// product quantised points: the full vector key ('v') is written whenever the vector is in
+// memory (always for a point set in this process), the code key ('q') in addition; a point read
+// back from its code alone keeps its 'v' key on disk, so 'v' enumerates every stored point.
+//@ func (*productQuantizedPoint).IdFromKey
+//@   property C04 C08
+//@   pure
+//@   arith bv
+//@   ensures result1 == enumOkV(key)
+//@   ensures result1 ==> result0 == le64at(key, 1)
+//@ func (*productQuantizedPoint).WriteTo
+//@   property C04 C08
+//@   pure
+//@   arith bv
+//@   requires p != nil
+//@   ensures result == nil && len(p.Vector) != 0 ==> enumOkV(callarg(Put, 1, 1)) && nodeKeyOf(callarg(Put, 1, 1), id, 'v') && callarg(Put, 1, 2) == callres(Float32ToBytes, 1, 0) && callarg(Float32ToBytes, 1, 0) == p.Vector
+//@   ensures result == nil && len(p.CentroidIds) != 0 ==> nodeKeyOf(callarg(Put, 2, 1), id, 'q') && callarg(Put, 2, 2) == p.CentroidIds
+//@   ensures len(p.Vector) != 0 && callres(Put, 1, 0) != nil ==> result != nil
+//@   ensures (len(p.Vector) == 0 || callres(Put, 1, 0) == nil) && len(p.CentroidIds) != 0 && callres(Put, 2, 0) != nil ==> result != nil
+//@ func (*productQuantizedPoint).DeleteFrom
+//@   property C04 C08
+//@   pure
+//@   arith bv
+//@   ensures result == nil ==> ncalls(Delete) == 2
+//@   ensures nodeKeyOf(callarg(Delete, 1, 1), id, 'v')
+//@   ensures ncalls(Delete) == 2 ==> nodeKeyOf(callarg(Delete, 2, 1), id, 'q')
+//@   ensures callres(Delete, 1, 0) != nil ==> result != nil
+//@   ensures ncalls(Delete) == 2 && callres(Delete, 2, 0) != nil ==> result != nil
+//@ func (*productQuantizedPoint).ReadFrom
+//@   property C04 C08
+//@   pure
+//@   allocates
+//@   arith bv
+//@   safety -makelen
+//@   ensures nodeKeyOf(callarg(Get, 1, 1), id, 'q')
+//@   ensures callres(Get, 1, 0) != nil ==> err == nil && ncalls(Get) == 1 && len(point.CentroidIds) == len(callres(Get, 1, 0)) && forall(k, 0, len(point.CentroidIds), point.CentroidIds[k] == callres(Get, 1, 0)[k])
+//@   ensures callres(Get, 1, 0) == nil ==> ncalls(Get) == 2 && nodeKeyOf(callarg(Get, 2, 1), id, 'v') && (err == nil) == (callres(Get, 2, 0) != nil)
+//@   ensures err != nil ==> err == cache.ErrNotFound
+//@   ensures err == nil ==> point != nil && fresh(point) && point.id == id
+//@   ensures err == nil && callres(Get, 1, 0) == nil ==> point.Vector == callres(BytesToFloat32, 1, 0) && callarg(BytesToFloat32, 1, 0) == callres(Get, 2, 0)
+//@ func (*productQuantizedPoint).CheckAndClearDirty
+//@   property C04 C08
+//@   requires p != nil
+//@   modifies p.isDirty
+//@   ensures result == old(p.isDirty) && !p.isDirty
